@@ -2,6 +2,7 @@
 # usage: tools/seeded.sh ID [check-ID ...]  — apply each sub-agent-produced breaking change of
 # /verif/seeded/ID to /repo, run the quick check(s) (default: the property's own), expect exit 1.
 cd /verif || exit 2
+export XV_EVIDENCE_DIR=${XV_EVIDENCE_DIR:-/tmp/xv_ev}   # keep runs against broken trees out of /verif/evidence
 id=$1; shift; checks=${@:-$id}
 if [ -n "$(git -C /repo status --porcelain)" ]; then echo "/repo is dirty"; exit 2; fi
 for d in seeded/$id/m*/; do
